@@ -165,8 +165,18 @@ func childRun(t *testing.T, sc *script, dir string) {
 		jline("E open %s", err)
 		t.Fatal(err)
 	}
+	killOp, _ := strconv.Atoi(os.Getenv("C08_KILL_AT_OP"))
+	killDelay, _ := strconv.Atoi(os.Getenv("C08_KILL_DELAY_US"))
 	for i, o := range sc.Ops {
 		jline("S %d", i)
+		if os.Getenv("C08_KILL_AT_OP") != "" && i == killOp {
+			// kill from a timer: the process dies at whatever instruction the operation has reached by then
+			go func() {
+				time.Sleep(time.Duration(killDelay) * time.Microsecond)
+				jline("K timer %d", killDelay)
+				_ = syscall.Kill(os.Getpid(), syscall.SIGKILL)
+			}()
+		}
 		if err := ctx.exec(o); err != nil {
 			jline("A %d err %s", i, strings.ReplaceAll(err.Error(), "\n", " "))
 		} else {
@@ -347,6 +357,9 @@ func fatalClass(out string) string {
 type crashCase struct {
 	Point string
 	Hit   int
+	// timer kills: Point == "timer", the process is killed DelayUs microseconds after operation Op was started
+	Op      int
+	DelayUs int
 }
 
 // groupWanted mirrors the driver's group selection (VERIF_ONLY_GROUPS / VERIF_SKIP_GROUPS, name prefixes) so that
@@ -399,12 +412,24 @@ func crashGroups(t *testing.T, r *report.Run) {
 		var cases []crashCase
 		for _, p := range crashPoints {
 			for n := 1; n <= ji.Hits[p]; n++ {
-				cases = append(cases, crashCase{p, n})
+				cases = append(cases, crashCase{Point: p, Hit: n})
 			}
 		}
 		if r.Shard == 0 || r.Only != "" {
 			for _, p := range crashPoints {
 				r.Count("crash.hits_in_script."+p, ji.Hits[p])
+			}
+		}
+		// kills at arbitrary instants: a timer started with operation k fires after a drawn delay (0 .. 4 ms, the
+		// duration range of the store's operations); what was acknowledged and what was in flight is read off the journal
+		perOp := r.Pick(1, 4)
+		if idx > 0 && !r.Thorough() {
+			perOp = 0
+		}
+		trng := report.NewRand(r.Seed, "c08-timer", uint64(idx))
+		for k := range sc.Ops {
+			for j := 0; j < perOp; j++ {
+				cases = append(cases, crashCase{Point: "timer", Op: k, DelayUs: trng.Intn(4000)})
 			}
 		}
 		r.Group(group, len(cases), func(i int, rng *report.Rand) {
@@ -421,10 +446,25 @@ func runCrash(r *report.Run, idx int, sc *script, cc crashCase) {
 	defer os.RemoveAll(dir)
 	jpath := filepath.Join(dir, "journal")
 	wit := func(extra interface{}) interface{} {
-		return map[string]interface{}{"script": idx, "point": cc.Point, "hit": cc.Hit, "ops": opsText(sc.Ops), "detail": extra}
+		return map[string]interface{}{"script": idx, "point": cc.Point, "hit": cc.Hit, "timer_started_with_op": cc.Op, "timer_delay_us": cc.DelayUs, "ops": opsText(sc.Ops), "detail": extra}
 	}
-	out, killed, _ := runChild(childCmd(r.Seed, idx, dir, "run", "C08_JOURNAL="+jpath, "C08_POINT="+cc.Point, "C08_HIT="+strconv.Itoa(cc.Hit)))
+	var out string
+	var killed bool
+	if cc.Point == "timer" {
+		out, killed, _ = runChild(childCmd(r.Seed, idx, dir, "run", "C08_JOURNAL="+jpath, "C08_KILL_AT_OP="+strconv.Itoa(cc.Op), "C08_KILL_DELAY_US="+strconv.Itoa(cc.DelayUs)))
+	} else {
+		out, killed, _ = runChild(childCmd(r.Seed, idx, dir, "run", "C08_JOURNAL="+jpath, "C08_POINT="+cc.Point, "C08_HIT="+strconv.Itoa(cc.Hit)))
+	}
 	ji := readJournal(jpath)
+	if cc.Point == "timer" && killed && ji.Inflight < 0 && !ji.Done {
+		// the timer fired between two operations: nothing was in flight; the acknowledged prefix must be intact
+		r.Count("crash.timer_kills_between_operations", 1)
+		ji.Inflight = ji.Acked
+		if ji.Inflight >= len(sc.Ops) {
+			return
+		}
+		ji.Killed = true
+	}
 	if !killed || !ji.Killed || ji.Inflight < 0 {
 		if !killed && !ji.Done {
 			r.Violation("c08.crash.child-failed:"+fatalClass(out), "the writing child failed before its kill point: "+tailText(out, 15), wit(ji))
@@ -575,7 +615,7 @@ func runCrash(r *report.Run, idx int, sc *script, cc crashCase) {
 			}
 		}
 	}
-	r.Nontrivial("crash", idx, cc.Point, cc.Hit, r.Seed)
+	r.Nontrivial("crash", idx, cc.Point, cc.Hit, cc.Op, cc.DelayUs, r.Seed)
 	if idx == 0 && cc.Hit == 1 {
 		r.Sample(map[string]interface{}{"kind": "kill", "script": idx, "point": cc.Point, "hit": cc.Hit, "acknowledged_ops": ji.Acked,
 			"in_flight": inflight.String(), "node_bubble_note": vo.BubbleErr})
